@@ -157,6 +157,13 @@ where
     }
 }
 
+#[cfg(bma400_verif)]
+impl IntConfig {
+    pub(crate) fn verif_regs(&self) -> [(u8, u8); 2] {
+        verif_regs!(self; int_config0, int_config1)
+    }
+}
+
 #[cfg(test)]
 mod tests {
     use super::*;
